@@ -1974,6 +1974,102 @@ downlink and the accepted RX1 downlink each advanced the counter, the faulted up
 example : (run lcg (MacState.init (RegionState.init .EU868) 14 0, 1) demoHistory).toOption.map (fun r => upFcnts r.2)
     = some [(7, 0), (7, 2), (7, 3), (9, 0)] := by decide +kernel
 
+/-! ### non-vacuity of the front-end theorems, and the Class C demonstration -/
+
+def demoCfgC : DevCfg := { lead := 15, buffer := 40, classC := true, txMs := 57 }
+
+def cDown (n : Nat) (conf : Bool) : RxView :=
+  .data { len := 14, confirmed := conf, fcnt16 := n, micFcnt := some n, fopts := [], fport := some 2, payload := [n] }
+
+/-- ABP session; a Class C device hears a confirmed downlink between TX and RX1 of the first uplink,
+nothing in the windows; a second uplink runs into a radio error while setting up RX2; OTAA re-join
+(accept in RX2); one more uplink -/
+def demoOps : List AsyncOp :=
+  [ .abp 7 1 2,
+    .send [1] 1 false [.ok, .ok, .frame 5 (cDown 3 true), .ok],
+    .send [2] 1 false [.ok, .ok, .ok, .ok, .ok, .ok, .ok, .ok, .err],
+    .join [.ok, .ok, .ok, .ok, .ok, .ok, .ok, .ok, .ok, .frame 1 (.joinAccept { micOk := true, devAddr := 9, dlSettings := 0, rxDelay := 1, cfList := none, nwkKey := 5, appKey := 6 })],
+    .send [3] 3 false [] ]
+
+def obsFcnts (obs : List OpObs) : List (Option (Nat × Nat × Bool)) :=
+  obs.map (fun ob => ob.frame.map (fun f => (f.devAddr, f.fcnt, f.ack)))
+
+/-- the session runs; its frames carry (DevAddr, FCnt, ACK) = (7,0,no) (7,2,yes) | (9,0,no): the Class C
+downlink heard in the middle of the first procedure and the completion of that procedure each took a
+counter, the ACK it asks for goes out with the NEXT uplink, the faulted uplink burnt counter 2 -/
+example : (asyncOps lcg demoCfgC { m := MacState.init (RegionState.init .EU868) 14 0, script := [], calls := [], downlinks := [] } 1 demoOps).toOption.map
+    (fun r => obsFcnts r.1) = some [none, some (7, 0, false), some (7, 2, true), none, some (9, 0, false)] := by decide +kernel
+
+/-- the same exchanges on the non-blocking front-end -/
+def demoNb : List (NbEvent × List NbItem) :=
+  [ (.send [1] 1 true, []), (.send [2] 1 false, []), (.radio (.txDone 100), []), (.timeout, []),
+    (.radio (.rx 0 .garbage), []), (.radio (.rx (-3) (cDown 3 true)), []),
+    (.send [2] 1 false, [.txDoneNow 5000]), (.join, []), (.timeout, [.err]), (.timeout, []), (.timeout, []), (.timeout, []),
+    (.timeout, []), (.send [3] 1 false, [.err]), (.send [4] 1 false, [.idle]), (.send [5] 1 false, []) ]
+
+def demoNbStart : NbRun :=
+  { m := macJoinAbp (MacState.init (RegionState.init .EU868) 14 0) 7 1 2, st := .idle, script := [], calls := [], downlinks := [] }
+
+/-- counters 0 (answered in RX1), 1 (RX2 timeout), 2 and 3 (the radio refuses the transmission: burnt), 4 -/
+example : (nbRunObs lcg { offset := -20, duration := 200 } demoNbStart 1 demoNb).toOption.map
+    (fun r => r.1.filterMap (fun ob => ob.frame.map (fun f => f.fcnt))) = some [0, 1, 2, 3, 4] := by decide +kernel
+
+/-! **Class C receptions inside the receive procedure are not a history of `Model/History.lean`.**
+The script below (a confirmed downlink heard by `rx_continuous` between TX and RX1, nothing in the
+windows) leaves the session at `fcnt_up = 2, fcnt_down = 3, adr_ack_cnt = 1, ACK owed`, the frame sent
+carrying counter 0 without ACK.  The two candidate histories — the reception before the uplink, or after
+it — give a different frame (counter 1 with ACK) resp. a different state (`adr_ack_cnt = 0`); the
+extended event `abstractSendC` computes reproduces it.  `classC_inside_op` is the op line that replays
+the same situation on the real front-end (`lvharness eval`): the snapshot shows two counters used and
+ADR count 1 after ONE `send`. -/
+
+def classC_inside_op : String :=
+  "C04 adev EU868 1 - 15 40 1 57 ; abp 637606874 ; asend 1 0 01 | O O R12/60da1b01260000001a1aeb681b01ba/d/15/0/0/0/-/26/ddb6 O O O O O O O O O ; snap"
+
+/-- (fcnt_up, fcnt_down, adr_ack_cnt, ACK owed) of the session (zeros if there is none; no downlink
+counter yet reads 4294967296) -/
+def sessOf (m : MacState) : Nat × Nat × Nat × Bool :=
+  match m.st with
+  | .joined s => (s.fcntUp, (match s.fcntDown with | some n => n | none => 4294967296), s.adrAckCnt, s.ackOwed)
+  | _ => (0, 0, 0, false)
+
+def mAbp : MacState := macJoinAbp (MacState.init (RegionState.init .EU868) 14 0) 7 1 2
+
+def scriptInside : List ScriptItem := [.ok, .ok, .frame 5 (cDown 3 true), .ok]
+
+def frameOf (o : Out) : Option (Nat × Bool) :=
+  match o with
+  | .up so _ _ => some (so.frame.fcnt, so.frame.ack)
+  | _ => none
+
+def insideRun : M (DevResult × DevRun × Nat) :=
+  asyncSend lcg demoCfgC { m := mAbp, script := scriptInside, calls := [], downlinks := [] } [1] 1 false 1
+
+theorem classC_inside_frontend :
+    insideRun.toOption.map (fun r => r.1) = some (.ok .rxComplete) ∧
+    insideRun.toOption.map (fun r => sessOf r.2.1.m) = some (2, 3, 1, true) ∧
+    insideRun.toOption.map (fun r => r.2.1.downlinks) = some [(2, [3])] ∧
+    (sentFrame lcg mAbp [1] 1 false 1).map (fun f => (f.fcnt, f.ack)) = some (0, false) := by decide +kernel
+
+theorem classC_inside_not_rxc_before :
+    (run lcg (mAbp, 1) [.rxc (cDown 3 true) 5 59, .uplink [1] 1 false none none none 59 59]).toOption.map
+      (fun r => (sessOf r.1.1, r.2.filterMap frameOf)) = some ((2, 3, 1, false), [(1, true)]) := by decide +kernel
+
+theorem classC_inside_not_rxc_after :
+    (run lcg (mAbp, 1) [.uplink [1] 1 false none none none 59 59, .rxc (cDown 3 true) 5 59]).toOption.map
+      (fun r => (sessOf r.1.1, r.2.filterMap frameOf)) = some ((2, 3, 0, true), [(0, false)]) := by decide +kernel
+
+theorem classC_inside_extended :
+    (runC lcg (mAbp, 1) [abstractSendC demoCfgC scriptInside [1] 1 false]).toOption.map
+      (fun r => (sessOf r.1.1, r.2.filterMap (fun oc => frameOf oc.out))) = some ((2, 3, 1, true), [(0, false)]) := by
+  decide +kernel
+
+/-- a script without frames between the windows: the event `abstractAsync` computes, and the history
+run equal to the front-end's result (instance of `async_send_refines`) -/
+example : abstractAsync lcg { demoCfgC with classC := false } mAbp 1 [.ok, .ok, .ok, .frame 2 (cDown 4 false), .err] [1] 1 false =
+    .uplink [1] 1 false (some 1) (some (cDown 4 false, 2)) none 59 59 := by rfl
+
+
 end C06
 
 #print axioms C06.history_fcnt_strict
